@@ -14,6 +14,8 @@ UNITS = {
                     about="Exec builder methods and terminators, stream adapters and their drop glue, Pipeline (composition, popen loop, join, capture, communicate, stream_*) against the builder world (log of started stages)"),
     "exec": dict(template="units/exec.vt.rs", rlimit=100,
                  about="posix::prep_exec / PrepExec::new / exec / assemble_exe: which program paths are tried, in which order, with what buffer capacity"),
+    "quote": dict(template="units/quote.vt.rs", rlimit=50,
+                  about="Exec::display_escape / nice_char: the result is one shell word for the string"),
     "pstate": dict(template="units/pstate.vt.rs", rlimit=50,
                    about="the Popen child-state machine (waitpid/wait/wait_timeout/poll/terminate/kill/send_signal/Drop) against the one-child process model"),
 }
@@ -29,6 +31,8 @@ PROPS = {
     "C07": dict(units=["spawn", "exec"], kani=["w_pipe", "w_fork_ids"], level="proof"),
     "C15": dict(units=["exec"], kani=["b_split_path_b3"], level="proof"),
     "C17": dict(units=["spawn", "exec"], kani=[], level="proof"),
+    "C19": dict(units=["quote"], kani=[], level="proof",
+                bounded_scenarios=[("c19_shell_roundtrip", "1778 argument vectors (1-2 arguments of length 0..3 over the alphabet a,space,',\",$,*,\\,newline,e-acute, plus 24 hand-picked strings) printed through Debug and evaluated by the real /bin/sh; one two-stage pipeline")]),
     "C18": dict(units=["spawn"], kani=["w_reset_sigpipe"], level="proof"),
     "C12": dict(units=["builder", "pstate"], kani=[], level="proof"),
     "C13": dict(units=["builder"], kani=[], level="proof"),
@@ -64,6 +68,11 @@ SCENARIOS = [
 # --------------------------------------------------------------------------------------------- assumptions
 # free-text trusted base per unit (in addition to the mechanically listed external_body/axiom items)
 UNIT_TRUST = {
+    "quote": [
+        "quoting world (units/models/quotew.rs): shell_word_for (a non-empty run of characters from [-_.,/0-9A-Za-z], or the single-quoted form with embedded quotes spliced as '\\'') is the oracle for 'a POSIX shell reads this word as s'; it is validated against the real /bin/sh only by the bounded scenario c19_shell_roundtrip",
+        "R6: format!(\"'{}'\", s.replace(...)) = fmt_squote_replaced; s.chars().all(f) = str_all; str::is_empty, char::is_ascii_alphanumeric by their std contracts; Cow<str> by a two-variant shim",
+        "to_cmdline_lossy and the Debug impls (joining with spaces and ' | ', environment prefix) are covered only by the bounded scenario, not by a contract",
+    ],
     "exec": [
         "exec world (units/models/execw.rs): segments(PATH) = the maximal non-empty colon-free runs (uninterpreted; split_path against it: bounded Kani harness b_split_path_b3, PATH of 3 bytes); "
         "the iterator returned by split_path is modelled by SplitPath (R6: `for dir in split_path(p)` desugared to loop/match next())",
